@@ -127,6 +127,28 @@ func (s *subsetter) SubsetCMap(c cmap.Subtable) cmap.Subtable {
 			res[key] = newGid
 		}
 		return res
+	case *cmap.Format0:
+		// Glyph IDs in a format 0 subtable are bytes.  If a glyph ends up
+		// beyond glyph 255, we switch to format 4.
+		res := &cmap.Format0{}
+		wide := cmap.Format4{}
+		fits := true
+		for code, oldGid := range c.Data {
+			newGid, ok := s.newGid[glyph.ID(oldGid)]
+			if !ok || oldGid == 0 {
+				continue
+			}
+			wide[uint16(code)] = newGid
+			if newGid > 255 {
+				fits = false
+				continue
+			}
+			res.Data[code] = byte(newGid)
+		}
+		if !fits {
+			return wide
+		}
+		return res
 	default:
 		panic(fmt.Sprintf("sfnt: unsupported cmap format %T", c))
 	}
